@@ -181,6 +181,8 @@ func init() {
 		}
 		var loops []loop
 		var emptyGuard, limitOn, limitTargets, limitOps string
+		var guardPos []token.Pos
+		var createPos token.Pos
 		ast.Inspect(set.Body, func(n ast.Node) bool {
 			switch st := n.(type) {
 			case *ast.RangeStmt:
@@ -192,8 +194,15 @@ func init() {
 				case "req.GetUpdate()":
 					loops = append(loops, loop{st.Pos(), "Update"})
 				}
+			case *ast.CallExpr:
+				if exprString(st.Fun) == "s.transactions.Create" && createPos == 0 {
+					createPos = st.Pos()
+				}
 			case *ast.IfStmt:
 				cond := fullExpr(st.Cond)
+				if strings.Contains(cond, "req.GetUpdate()") && strings.Contains(cond, "req.GetDelete()") || mentions(st.Cond, "s.gnmiSetSizeLimit") {
+					guardPos = append(guardPos, st.End())
+				}
 				switch {
 				case strings.Contains(cond, "req.GetUpdate()") && strings.Contains(cond, "req.GetDelete()"):
 					if s, ok := leanCond(st.Cond, map[string]string{
@@ -228,6 +237,13 @@ func init() {
 			fail("%s: could not translate the emptiness / size-limit guards of Set (%q %q %q %q)", sg, emptyGuard, limitOn, limitTargets, limitOps)
 			return
 		}
+		inlineBefore := createPos != 0 && len(guardPos) > 0
+		for _, gp := range guardPos {
+			if gp >= createPos {
+				inlineBefore = false
+			}
+		}
+		fmt.Fprintf(&out, "/-- the emptiness check and the whole size-limit block of `Set` end before the call of transactions.Create -/\ndef setInlineGuardsBeforeCreate : Bool := %v\n\n", inlineBefore)
 		fmt.Fprintf(&out, "/-- `Set` refuses when this holds of the three list lengths -/\ndef setEmptyGuard (nUpdate nReplace nDelete : Int) : Bool := %s\n\n", emptyGuard)
 		fmt.Fprintf(&out, "/-- the size limit is enforced when this holds -/\ndef setLimitOn (limit : Int) : Bool := %s\n\n", limitOn)
 		fmt.Fprintf(&out, "/-- under a limit, `Set` refuses when this holds of the number of targets -/\ndef setLimitTargetsGuard (nTargets limit : Int) : Bool := %s\n\n", limitTargets)
